@@ -39,6 +39,21 @@ def enum_struct_variants(src, name):
         i = mm.end()
     return out
 
+def tuple_variants(src, name):
+    """`pub enum Name<'a> { V(Payload), ... }` -> [V, ...] (doc comments / attributes skipped)"""
+    m = re.search(r'pub enum ' + name + r"(<'a>)?\s*\{", src)
+    if not m: raise TranslateError("enum %s not found" % name)
+    body = strip_comments(src[m.end() - 1: match_brace(src, m.end() - 1)])[1:-1]
+    out = []
+    for part in body.split(','):
+        part = part.strip()
+        if not part: continue
+        part = re.sub(r'#\[[^\]]*\]\s*', '', part)
+        vm = re.fullmatch(r'([A-Z][A-Za-z0-9]*)\s*\([A-Za-z0-9_<>\']+\)', part)
+        if not vm: raise TranslateError("variant of %s outside subset: %r" % (name, part[:60]))
+        out.append(vm.group(1))
+    return out
+
 def match_arms(body, scrut):
     """body of a fn whose tail is `match <scrut> { arms }` -> (prefix_text, [(variant, binders, expr_text)])"""
     b = strip_comments(body)
@@ -188,6 +203,222 @@ def main(out_path):
     L[-3] = L[-3] % expr
     L.append('def minimal_value_contribution_msat (allow_mpp : Bool) (final_value_msat max_path_count : Nat) : Nat :=')
     L.append('  ' + em.e(parse_expr(expr)))
+    L.append('')
+
+    # ---- CandidateRouteHop: what each variant contributes to the search (C16 v2) -------------------------
+    cand_variants = tuple_variants(router, 'CandidateRouteHop')
+    want = ['FirstHop', 'PublicHop', 'PrivateHop', 'Blinded', 'OneHopBlinded']
+    if cand_variants != want: raise TranslateError("enum CandidateRouteHop variants changed: %s (expected %s)" % (cand_variants, want))
+    L.append('/-- mirrors the variants of routing/router.rs `enum CandidateRouteHop` (payloads dropped) -/')
+    L.append('inductive CandidateKind where')
+    for v in cand_variants: L.append('  | %s' % lc(v))
+    L.append('  deriving DecidableEq, Repr, Inhabited')
+    L.append('')
+    impl = "impl<'a> CandidateRouteHop<'a>"
+    if impl not in router: raise TranslateError("`%s` not found" % impl)
+
+    def cand_table(fn, rty, srcmap):
+        """arms of `match self` in CandidateRouteHop::<fn> -> {variant: tag}; every arm body must be one of the
+        texts of `srcmap` (whitespace-normalised), anything else is outside the subset"""
+        params, ret, body = find_fn(router, fn, after=impl)
+        if ' '.join(params.split()) != '&self': raise TranslateError("CandidateRouteHop::%s signature changed: %r" % (fn, params))
+        if ' '.join(ret.split()) != rty: raise TranslateError("CandidateRouteHop::%s return type changed: %r" % (fn, ret))
+        b = strip_comments(body)
+        m = re.search(r'match\s+self\s*\{', b)
+        if not m or b[:m.start()].strip() != '{': raise TranslateError("CandidateRouteHop::%s is not a single `match self`" % fn)
+        end = match_brace(b, m.end() - 1)
+        if b[end:].strip() != '}': raise TranslateError("CandidateRouteHop::%s: code after the match" % fn)
+        inner = b[m.end():end - 1]
+        parts = []; d = 0; cur = ''
+        i = 0
+        while i < len(inner):
+            c = inner[i]
+            if c in '({[': d += 1
+            if c in ')}]':
+                d -= 1
+                # an arm whose body is a `{ … }` block may end without a comma
+                if c == '}' and d == 0 and '=>' in cur and cur.split('=>', 1)[1].strip().startswith('{'):
+                    cur += c; parts.append(cur); cur = ''; i += 1
+                    while i < len(inner) and inner[i] in ' \t\n,': i += 1
+                    continue
+            if c == ',' and d == 0:
+                parts.append(cur); cur = ''
+            else:
+                cur += c
+            i += 1
+        if cur.strip(): parts.append(cur)
+        out = {}
+        for part in parts:
+            part = ' '.join(part.split())
+            if not part: continue
+            am = re.fullmatch(r'CandidateRouteHop::([A-Za-z]+)\s*(\(.*?\)|\{ \.\. \})\s*=>\s*(.*)', part)
+            if not am: raise TranslateError("CandidateRouteHop::%s: arm outside subset: %r" % (fn, part[:100]))
+            v, pat, expr = am.group(1), am.group(2), am.group(3).strip().rstrip(',').strip()
+            key = expr
+            if fn == 'effective_capacity' and v == 'PrivateHop':
+                pm = re.fullmatch(r'\(PrivateHopCandidate \{ hint: RouteHintHop \{ htlc_maximum_msat: (Some\(max\)|None), \.\. \}, \.\. \}\)', pat)
+                if not pm: raise TranslateError("effective_capacity: PrivateHop pattern changed: %r" % pat)
+                v = 'PrivateHop/' + ('some' if pm.group(1).startswith('Some') else 'none')
+            elif not re.fullmatch(r'\((hop|_)\)|\{ \.\. \}', pat):
+                raise TranslateError("CandidateRouteHop::%s: pattern outside subset: %r" % (fn, pat))
+            if key not in srcmap: raise TranslateError("CandidateRouteHop::%s: arm %s has an unknown body %r" % (fn, v, key))
+            if v in out: raise TranslateError("CandidateRouteHop::%s: duplicate arm %s" % (fn, v))
+            out[v] = srcmap[key]
+        return out
+
+    def need(tab, fn, vs):
+        miss = [v for v in vs if v not in tab]
+        if miss or len(tab) != len(vs): raise TranslateError("CandidateRouteHop::%s: arms %s, expected %s" % (fn, sorted(tab), vs))
+
+    # effective_capacity
+    tab = cand_table('effective_capacity', '-> EffectiveCapacity', {
+        'EffectiveCapacity::ExactLiquidity { liquidity_msat: hop.details.next_outbound_htlc_limit_msat, }': '.exactLiquidity htlc_maximum_msat',
+        'hop.info.effective_capacity()': 'info_capacity',
+        'EffectiveCapacity::HintMaxHTLC { amount_msat: *max }': '.hintMaxHTLC htlc_maximum_msat',
+        'EffectiveCapacity::Infinite': '.infinite',
+        'EffectiveCapacity::HintMaxHTLC { amount_msat: hop.hint.payinfo.htlc_maximum_msat }': '.hintMaxHTLC htlc_maximum_msat',
+    })
+    need(tab, 'effective_capacity', ['FirstHop', 'PublicHop', 'PrivateHop/some', 'PrivateHop/none', 'Blinded', 'OneHopBlinded'])
+    L.append('/-- mirrors router.rs CandidateRouteHop::effective_capacity (translated arm by arm). `htlc_maximum_msat` is')
+    L.append('    next_outbound_htlc_limit_msat (FirstHop) / the hint\'s htlc_maximum_msat, absent iff `no_maximum` (PrivateHop) /')
+    L.append('    payinfo.htlc_maximum_msat (Blinded); `info_capacity` is DirectedChannelInfo::effective_capacity (PublicHop) -/')
+    L.append('def candidate_capacity (k : CandidateKind) (info_capacity : EffectiveCapacity) (htlc_maximum_msat : Nat) (no_maximum : Bool) : EffectiveCapacity :=')
+    L.append('  match k with')
+    for v in cand_variants:
+        if v == 'PrivateHop':
+            L.append('  | .privateHop => if no_maximum then %s else %s' % (tab['PrivateHop/none'], tab['PrivateHop/some']))
+        else:
+            L.append('  | .%s => %s' % (lc(v), tab[v]))
+    L.append('')
+    # fees
+    zero_fees = ['RoutingFees { base_msat: 0, proportional_millionths: 0, }', 'RoutingFees { base_msat: 0, proportional_millionths: 0 }']
+    srcmap = {z: '(0, 0)' for z in zero_fees}
+    srcmap.update({'hop.info.direction().fees': '(base_msat, proportional_millionths)', 'hop.hint.fees': '(base_msat, proportional_millionths)',
+                   '{ RoutingFees { base_msat: hop.hint.payinfo.fee_base_msat, proportional_millionths: hop.hint.payinfo.fee_proportional_millionths } }': '(base_msat, proportional_millionths)'})
+    tab = cand_table('fees', '-> RoutingFees', srcmap)
+    need(tab, 'fees', cand_variants)
+    L.append('/-- mirrors router.rs CandidateRouteHop::fees (translated arm by arm): (base_msat, proportional_millionths) of the policy /')
+    L.append('    hint / BlindedPayInfo, or zero -/')
+    L.append('def candidate_fees (k : CandidateKind) (base_msat proportional_millionths : Nat) : Nat × Nat :=')
+    L.append('  match k with')
+    for v in cand_variants: L.append('  | .%s => %s' % (lc(v), tab[v]))
+    L.append('')
+    # cltv_expiry_delta
+    tab = cand_table('cltv_expiry_delta', '-> u32', {'0': '0', 'hop.info.direction().cltv_expiry_delta as u32': 'cltv_expiry_delta',
+        'hop.hint.cltv_expiry_delta as u32': 'cltv_expiry_delta', 'hop.hint.payinfo.cltv_expiry_delta as u32': 'cltv_expiry_delta'})
+    need(tab, 'cltv_expiry_delta', cand_variants)
+    L.append('/-- mirrors router.rs CandidateRouteHop::cltv_expiry_delta (translated arm by arm) -/')
+    L.append('def candidate_cltv_expiry_delta (k : CandidateKind) (cltv_expiry_delta : Nat) : Nat :=')
+    L.append('  match k with')
+    for v in cand_variants: L.append('  | .%s => %s' % (lc(v), tab[v]))
+    L.append('')
+    # htlc_minimum_msat
+    tab = cand_table('htlc_minimum_msat', '-> u64', {'0': '0', 'hop.details.next_outbound_htlc_minimum_msat': 'htlc_minimum_msat',
+        'hop.info.direction().htlc_minimum_msat': 'htlc_minimum_msat', 'hop.hint.htlc_minimum_msat.unwrap_or(0)': 'htlc_minimum_msat',
+        'hop.hint.payinfo.htlc_minimum_msat': 'htlc_minimum_msat'})
+    need(tab, 'htlc_minimum_msat', cand_variants)
+    L.append('/-- mirrors router.rs CandidateRouteHop::htlc_minimum_msat (translated arm by arm; an absent hint minimum is 0) -/')
+    L.append('def candidate_htlc_minimum_msat (k : CandidateKind) (htlc_minimum_msat : Nat) : Nat :=')
+    L.append('  match k with')
+    for v in cand_variants: L.append('  | .%s => %s' % (lc(v), tab[v]))
+    L.append('')
+    # short_channel_id: which variants are RouteHops (the others become the BlindedTail)
+    tab = cand_table('short_channel_id', '-> Option<u64>', {'hop.details.get_outbound_payment_scid()': 'true', 'Some(hop.short_channel_id)': 'true',
+        'Some(hop.hint.short_channel_id)': 'true', 'None': 'false'})
+    need(tab, 'short_channel_id', cand_variants)
+    if not re.search(r'\.filter\(\|\(h, _\)\| h\.candidate\.short_channel_id\(\)\.is_some\(\)\)', router):
+        raise TranslateError("get_route: `.filter(|(h, _)| h.candidate.short_channel_id().is_some())` (RouteHops = candidates with an scid) not found")
+    L.append('/-- router.rs CandidateRouteHop::short_channel_id is `Some` (translated arm by arm): exactly these candidates become')
+    L.append('    `RouteHop`s of a returned path (get_route filters on it); the others end the path as its `BlindedTail` -/')
+    L.append('def candidate_has_scid (k : CandidateKind) : Bool :=')
+    L.append('  match k with')
+    for v in cand_variants: L.append('  | .%s => %s' % (lc(v), tab[v]))
+    L.append('')
+    # ChannelDetails::get_outbound_payment_scid
+    chst = rd('lightning/src/ln/channel_state.rs')
+    params, ret, body = find_fn(chst, 'get_outbound_payment_scid')
+    if ' '.join(strip_comments(body).split()) != '{ self.outbound_scid_alias.or(self.short_channel_id) }':
+        raise TranslateError("ChannelDetails::get_outbound_payment_scid body changed: %r" % ' '.join(strip_comments(body).split()))
+    L.append('/-- mirrors ln/channel_state.rs ChannelDetails::get_outbound_payment_scid (translated): `self.outbound_scid_alias.or(self.short_channel_id)` -/')
+    L.append('def get_outbound_payment_scid (outbound_scid_alias short_channel_id : Option Nat) : Option Nat :=')
+    L.append('  outbound_scid_alias.or short_channel_id')
+    L.append('')
+    # get_route step (1): a hint hop naming a direct channel of ours
+    ms = re.findall(r'let matches_an_scid = \|d: &&ChannelDetails\|\s*(.*?);', router, re.S)
+    if len(ms) != 1: raise TranslateError("get_route: expected exactly one `let matches_an_scid = |d: &&ChannelDetails| …;`, found %d" % len(ms))
+    expr = ' '.join(ms[0].split())
+    em = Emitter(fields={'d.outbound_scid_alias': 'outbound_scid_alias', 'd.short_channel_id': 'short_channel_id', 'hop.short_channel_id': 'hint_scid'})
+    em.methods['get_outbound_payment_scid'] = lambda recv, args: '(get_outbound_payment_scid outbound_scid_alias short_channel_id)'
+    try:
+        body_lean = em.e(parse_expr(expr))
+    except Exception as ex:
+        raise TranslateError("matches_an_scid outside subset (%s): %r" % (ex, expr))
+    if not re.search(r'if first_channels\.iter\(\)\.any\(matches_an_scid\) \{', router):
+        raise TranslateError("get_route: `if first_channels.iter().any(matches_an_scid) {` not found")
+    L.append('/-- get_route step (1) (translated): `let matches_an_scid = |d: &&ChannelDetails| %s;` — a route-hint hop whose' % expr)
+    L.append('    target is a first-hop peer and which names one of our channels to it is ignored (the FirstHop candidate is used) -/')
+    L.append('def matches_an_scid (outbound_scid_alias short_channel_id : Option Nat) (hint_scid : Nat) : Bool :=')
+    L.append('  decide (%s)' % body_lean)
+    L.append('')
+    # get_route: public channels of the payer are skipped when first_hops was supplied
+    if not re.search(r'if first_hops\.is_none\(\) \|\| \*source != our_node_id \{', router):
+        raise TranslateError("get_route: `if first_hops.is_none() || *source != our_node_id {` not found")
+    L.append('/-- get_route (translated): `if first_hops.is_none() || *source != our_node_id {` guards the PublicHop candidates -/')
+    L.append('def public_candidate_considered (first_hops_is_none source_is_our_node : Bool) : Bool :=')
+    L.append('  first_hops_is_none || !source_is_our_node')
+    L.append('')
+    # PaymentPath::max_final_value_msat: the contribution bound of one hop
+    params, ret, body = find_fn(router, 'max_final_value_msat')
+    b = strip_comments(body)
+    ms = re.findall(r'let hop_max_final_value_contribution = (.*?);', b, re.S)
+    if len(ms) != 1: raise TranslateError("max_final_value_msat: expected one `let hop_max_final_value_contribution = …;`, found %d" % len(ms))
+    expr = ' '.join(ms[0].split())
+    want = ('(hop_max_msat as u128) .checked_sub(next_hops_aggregated_base as u128) .and_then(|f| f.checked_mul(1_000_000)) '
+            '.and_then(|f| f.checked_add(next_hops_aggregated_prop as u128)) .map(|f| f / ((next_hops_aggregated_prop as u128).saturating_add(1_000_000)))')
+    if expr != want: raise TranslateError("max_final_value_msat: hop_max_final_value_contribution changed: %r" % expr)
+    ms2 = re.findall(r'let hop_max_msat = max_htlc_from_capacity\(\s*hop_effective_capacity_msat, channel_saturation_pow_half\s*\)\.saturating_sub\(\*used_liquidities\.get\(&hop\.candidate\.id\(\)\)\.unwrap_or\(&0_u64\)\);', b)
+    if len(ms2) != 1: raise TranslateError("max_final_value_msat: `let hop_max_msat = max_htlc_from_capacity(…).saturating_sub(used liquidity)` changed")
+    L.append('/-- PaymentPath::max_final_value_msat (translated, u128 arithmetic: the three checked steps cannot overflow for u64')
+    L.append('    inputs except the subtraction): `let hop_max_final_value_contribution = %s;` -/' % expr)
+    L.append('def hop_max_final_value_contribution (hop_max_msat next_hops_aggregated_base next_hops_aggregated_prop : Nat) : Option Nat :=')
+    L.append('  if next_hops_aggregated_base ≤ hop_max_msat then')
+    L.append('    some (((hop_max_msat - next_hops_aggregated_base) * 1000000 + next_hops_aggregated_prop) / (next_hops_aggregated_prop + 1000000))')
+    L.append('  else none')
+    L.append('')
+    L.append('/-- PaymentPath::max_final_value_msat (translated): `hop_max_msat = max_htlc_from_capacity(effective_capacity, pow).saturating_sub(used)` -/')
+    L.append('def hop_max_msat (capacity : EffectiveCapacity) (channel_saturation_pow_half used_liquidity_msat : Nat) : Nat :=')
+    L.append('  max_htlc_from_capacity capacity channel_saturation_pow_half - used_liquidity_msat')
+    L.append('')
+    # get_route: the CLTV budget of the search
+    ms = re.findall(r'let max_total_cltv_expiry_delta: u16 =\s*(.*?);', router, re.S)
+    if len(ms) != 1: raise TranslateError("get_route: expected one `let max_total_cltv_expiry_delta: u16 = …;`, found %d" % len(ms))
+    expr = ' '.join(ms[0].split())
+    want = ('(payment_params.max_total_cltv_expiry_delta - final_cltv_expiry_delta) .checked_sub(2*MEDIAN_HOP_CLTV_EXPIRY_DELTA) '
+            '.unwrap_or(payment_params.max_total_cltv_expiry_delta - final_cltv_expiry_delta) .try_into() .unwrap_or(u16::MAX)')
+    if expr != want: raise TranslateError("get_route: max_total_cltv_expiry_delta budget changed: %r" % expr)
+    m = re.search(r'const MEDIAN_HOP_CLTV_EXPIRY_DELTA: u32 = (\d+);', router)
+    if not m: raise TranslateError("MEDIAN_HOP_CLTV_EXPIRY_DELTA not found")
+    if not re.search(r'if payment_params\.max_total_cltv_expiry_delta <= final_cltv_expiry_delta \{\s*return Err\(', router):
+        raise TranslateError("get_route: `if payment_params.max_total_cltv_expiry_delta <= final_cltv_expiry_delta { return Err(` not found")
+    if not re.search(r'let exceeds_cltv_delta_limit = hop_total_cltv_delta > max_total_cltv_expiry_delta as u32;', router):
+        raise TranslateError("get_route: `exceeds_cltv_delta_limit = hop_total_cltv_delta > max_total_cltv_expiry_delta as u32` not found")
+    L.append('def MEDIAN_HOP_CLTV_EXPIRY_DELTA : Nat := %s' % m.group(1))
+    L.append('/-- get_route (translated): the CLTV budget of the hops BEFORE the final one: `let max_total_cltv_expiry_delta: u16 = %s;`' % expr)
+    L.append('    (get_route returns Err before when max_total_cltv_expiry_delta <= final_cltv_expiry_delta) -/')
+    L.append('def search_cltv_budget (max_total_cltv_expiry_delta final_cltv_expiry_delta : Nat) : Nat :=')
+    L.append('  let room := max_total_cltv_expiry_delta - final_cltv_expiry_delta;')
+    L.append('  Nat.min (if 2 * MEDIAN_HOP_CLTV_EXPIRY_DELTA ≤ room then room - 2 * MEDIAN_HOP_CLTV_EXPIRY_DELTA else room) 65535')
+    L.append('')
+    # add_entry!: htlc-minimum propagation
+    ms = re.findall(r'let path_htlc_minimum_msat = (compute_fees_saturating\(curr_min, candidate_fees\)\s*\.saturating_add\(curr_min\));', router)
+    if len(ms) != 1: raise TranslateError("add_entry!: `let path_htlc_minimum_msat = compute_fees_saturating(curr_min, candidate_fees).saturating_add(curr_min);` not found")
+    if not re.search(r'let curr_min = cmp::max\(\s*\$next_hops_path_htlc_minimum_msat, htlc_minimum_msat\s*\);', router):
+        raise TranslateError("add_entry!: `let curr_min = cmp::max($next_hops_path_htlc_minimum_msat, htlc_minimum_msat);` not found")
+    L.append('/-- add_entry! (translated): `let curr_min = cmp::max($next_hops_path_htlc_minimum_msat, htlc_minimum_msat);`')
+    L.append('    `let path_htlc_minimum_msat = compute_fees_saturating(curr_min, candidate_fees).saturating_add(curr_min);` -/')
+    L.append('def path_htlc_minimum_msat (next_hops_path_htlc_minimum_msat htlc_minimum_msat base_msat proportional_millionths : Nat) : Nat :=')
+    L.append('  let curr_min := Nat.max next_hops_path_htlc_minimum_msat htlc_minimum_msat;')
+    L.append('  satAdd64 (compute_fees_saturating curr_min base_msat proportional_millionths) curr_min')
     L.append('')
     L.append('end Ldk.Router')
     text = '\n'.join(L) + '\n'
